@@ -1,5 +1,9 @@
 """C10 — iterator steps return exactly the samples inside the reported view."""
 import json
+import os
+import random
+import re
+import vlib
 from vlib import coq_print
 from props import cesgen
 from props.cesgen import z, zl, c_tr, MAXTS
@@ -103,7 +107,19 @@ def gen_ops(rng, setup, key, bounds):
     return ops
 
 
-def gen_case(rng, tier):
+def avoid_known(ops, rng, spans=(1, 2, 7)):
+    """The main stream stays outside the signature of the known finding C10-auto-prev-eof (a pure
+    SeekLast; Prev(auto)... traversal): the first step after a SeekLast is never Prev(auto).
+    Those traversals are exercised by the extra phase, which classifies every rejection."""
+    out = []
+    for o in ops:
+        if o["c"] == "prev_auto" and out and out[-1]["c"] == "seek_last":
+            out.append({"c": "prev", "a": rng.choice(spans)})
+        out.append(o)
+    return out
+
+
+def gen_case(rng, tier, backward_auto=False):
     malformed = rng.random() < 0.1
     setup = cesgen.gen_setup(rng, malformed=malformed)
     keys = [c["key"] for c in setup["channels"]]
@@ -118,8 +134,11 @@ def gen_case(rng, tier):
         a, b = sorted([rng.choice(pos), rng.choice(pos)])
         bounds = [a, b]
     chunk = rng.choice([1, 2, 2, 3, 7, 100])
-    return {"setup": setup, "key": key, "bounds": bounds, "chunk": chunk,
-            "ops": gen_ops(rng, setup, key, bounds)}
+    if backward_auto:
+        ops = [{"c": "seek_last"}] + [{"c": "prev_auto"} for _ in range(rng.randrange(2, 14))]
+    else:
+        ops = avoid_known(gen_ops(rng, setup, key, bounds), rng)
+    return {"setup": setup, "key": key, "bounds": bounds, "chunk": chunk, "ops": ops}
 
 
 def gen_cases(rng, tier, n):
@@ -192,13 +211,103 @@ def neighbours(case, rng):
     return out
 
 
+KNOWN_EOF = "C10-auto-prev-eof"
+
+
+def diagnose(case, r):
+    """[(command index, [clause codes])] from the Coq monitor (see Mon_C10.diagnose)"""
+    out = coq_print(PID, COQ_IMPORTS, COQ_EXTRA + "\nEval vm_compute in diagnose (%s)." % to_coq(case, r))
+    out = re.sub(r"\s+", " ", out)
+    m = re.search(r"= (\[.*?\]) : list", out)
+    if not m:
+        return None
+    return [(int(a), [int(x) for x in b.replace(" ", "").split(";") if x])
+            for a, b in re.findall(r"\((\d+), \[([\d; ]*)\]\)", m.group(1))]
+
+
 def tags(case, r):
-    return set()
+    """Signature of the known finding: every rejected clause is the traversal clause (7) of a
+    SeekLast whose following pure Prev(auto) run stops with an EOF error (class 5)."""
+    if r is None or r.get("panic") or r.get("fatal") or not r.get("outs"):
+        return set()
+    d = diagnose(case, r)
+    if not d:
+        return set()
+    ops = case["ops"]
+    for n, codes in d:
+        if codes != [7] or ops[n]["c"] != "seek_last":
+            return {"clause-%s" % "-".join(map(str, codes))}
+        j = n + 1
+        eof = False
+        while j < len(ops) and ops[j]["c"] == "prev_auto":
+            if r["outs"][j]["err"] == 5:
+                eof = True
+                break
+            if r["outs"][j]["err"] != 0:
+                break
+            j += 1
+        if not eof:
+            return {"clause-7"}
+    return {KNOWN_EOF}
+
+
+def extra(ctx):
+    """Pure backward automatic traversals (the signature of C10-auto-prev-eof): evaluated
+    separately so that the known finding never masks a mismatch or a new rejection of the
+    main stream; every mismatch here is reported, every rejection is classified by tags()."""
+    import check
+    n = max(40, COUNTS[ctx.tier] // 8)
+    rng = random.Random(ctx.seed * 104729 + 7)
+    cases = [gen_case(rng, ctx.tier, backward_auto=True) for _ in range(n)]
+    res, M, V, hv, errs = ctx.evaluate(cases)
+    ctx.extra_cov["backward_auto_traversals"] = len(cases)
+    ctx.extra_cov["backward_auto_mismatches"] = len(M)
+    ctx.extra_cov["backward_auto_rejections"] = len(V)
+    if errs:
+        rp = check.write_replay(ctx, "V2", "extra phase could not be evaluated", {}, None, {"errors": errs[:5]})
+        ctx.violations.append({"kind": "V2", "what": "extra phase: %s" % errs[0][:200], "replay": rp, "found_input": False})
+    for i, w in hv[:3]:
+        check.report_case_violation(ctx, cases[i], res.get(i), w)
+    seen = set()
+    for i in V[:12]:
+        tg = tuple(sorted(tags(cases[i], res.get(i))))
+        if tg in seen:
+            continue
+        seen.add(tg)
+        small = cases[i]
+        if tg != (KNOWN_EOF,):
+            small = check.shrink(ctx, cases[i])
+            r2, _, V2, hv2, _ = ctx.evaluate([small])
+            if V2 or hv2:
+                check.report_case_violation(ctx, small, r2.get(0), "monitor ok_C10 rejects a backward automatic traversal")
+                continue
+        check.report_case_violation(ctx, cases[i], res.get(i), "monitor ok_C10 rejects a backward automatic traversal")
+    onlyM = [i for i in M if i not in V]
+    if onlyM:
+        i = onlyM[0]
+        rp = check.write_replay(ctx, "V2", "model and implementation disagree (backward automatic traversal)",
+                                cases[i], res.get(i), {"correspondence": "corr:C10/extra#%d" % i,
+                                                       "model": model_dump(cases[i], res.get(i))})
+        ctx.violations.append({"kind": "V2", "what": "correspondence corr:C10 broke on %d backward traversals" % len(onlyM),
+                               "replay": rp, "found_input": False})
 
 
 def model_dump(case, r):
     t = to_coq(case, r)
     return coq_print(PID, COQ_IMPORTS, COQ_EXTRA + "\nEval vm_compute in model_dump (%s)." % t)[-8000:]
+
+
+def consts(repo):
+    """unary.AutoSpan and the default AutoChunkSize, read from the Go source on every run"""
+    src = open(os.path.join(repo, "cesium/internal/unary/iterator.go")).read()
+    m = re.search(r"const\s+AutoSpan\s+telem\.TimeSpan\s*=\s*(-?\d+)", src)
+    d = re.search(r"DefaultIteratorConfig\s*=\s*IteratorConfig\{AutoChunkSize:\s*([0-9.e]+)\}", src)
+    if not m or not d:
+        raise ValueError("AutoSpan / DefaultIteratorConfig not found in unary/iterator.go")
+    chunk = int(float(d.group(1)))
+    return ("(* generated from cesium/internal/unary/iterator.go by runner/props/C10.py; do not edit *)\n"
+            "From Coq Require Import ZArith.\nLocal Open Scope Z_scope.\n"
+            "Definition go_auto_span : Z := %d.\nDefinition go_default_chunk : Z := %d.\n" % (int(m.group(1)), chunk))
 
 
 READY = False
